@@ -19,4 +19,4 @@ Extraction "../ocaml/gen/kmodel.ml"
   cache_get cache_touch cache_set cache_put cache_write_temp get_or_update ensure ro_get ro_touch
   f_get f_touch f_set f_put f_temp_dir prune
   client_set_path client_set_temp client_front_write client_populate client_judge chk_byteeq chk_panic chk_count
-  stage_path stage_temp bind spec.
+  stage_path stage_temp bind spec run_crash.
